@@ -388,6 +388,13 @@ def json_mode(ctx: Ctx, I: Interp) -> None:
                (o.mode == "map" and isinstance(o.elt, (SObj, SOpaque)) and "serialize_to_script_json" in repr(getattr(o.elt, "meta", {}).get("call", "")))]
         txt = repr(l.value)
         appended = "join" in txt
+        if mode == "json" and not appended:
+            # nothing to append: the path has established that the list of serialisations is empty
+            lists_ = [o for o in _lists(l) if o.mode == "map"]
+            empties = [a for a, v in l.atoms if isinstance(a, tuple) and a[0] == "nonempty" and v is False and any(a[1] == o.uid for o in lists_)]
+            if empties:
+                ctx.ok("C13.mode", "json mode with no dependencies appends nothing")
+                continue
         ctx.check(appended == (mode == "json"), "C13.mode", f"serialised dependencies are appended iff the mode is 'json' (mode {mode})", where,
                   f"mode {mode}: returns {short(l.value)}", f"in mode {mode!r} the serialised dependencies are {'not ' if mode == 'json' else ''}appended to str(x)")
         if mode == "json" and appended:
